@@ -92,6 +92,19 @@ type hstep struct {
 	Batch  []sample `json:"batch,omitempty"`
 }
 
+type skSample struct {
+	Key string `json:"k"`
+	Sub string `json:"s"`
+	Inc int64  `json:"i"`
+}
+
+// what the BarGraph was given in one frame (copies taken at the time of the call)
+type bargFrame struct {
+	Keys []string  `json:"keys"`
+	Rows []string  `json:"rows"`
+	Vals [][]int64 `json:"vals"`
+}
+
 type c14In struct {
 	Kind   string `json:"kind"`
 	Col    bool   `json:"colour"`
@@ -133,6 +146,11 @@ type c14In struct {
 	// (rows whose cells were all in trimmed columns disappear: the table can shrink between frames)
 	TrimCols bool `json:"trim_columns,omitempty"`
 
+	// kind bargf: frames of (key, sub-key, count) samples into a real aggregation.SubKeyCounter; after
+	// each frame the BarGraph is fed as cmd/bargraph.go feeds it (the counter's LIVE slices)
+	SKFrames [][]skSample `json:"subkey_frames,omitempty"`
+	ByValue  bool         `json:"sort_by_value,omitempty"`
+
 	FixMin bool    `json:"fixed_min,omitempty"`
 	FixMax bool    `json:"fixed_max,omitempty"`
 	Steps  []hstep `json:"steps,omitempty"` // kind heatseq
@@ -156,6 +174,7 @@ type c14Out struct {
 	Lines     []string   `json:"lines,omitempty"`
 	States    []aggState `json:"agg_states,omitempty"` // what the renderer read (input of the model)
 	Auto      []string   `json:"automatic_range_lines,omitempty"` // kind cli: the run without --min/--max
+	BFrames   []bargFrame `json:"bargraph_frames,omitempty"`      // kind bargf: what each frame passed to SetKeys / WriteBar
 	Note      string     `json:"note,omitempty"`
 }
 
@@ -406,6 +425,31 @@ func runImpl(in c14In) c14Out {
 		return c14Out{Completed: true, Lines: termLines(vt, in.Col, true), States: statesOf(in)}
 	case "cli":
 		return runCli(in)
+	case "bargf":
+		vt := multiterm.NewVirtualTerm()
+		b := termrenderers.NewBarGraph(vt)
+		b.BarSize = in.Size
+		b.Stacked = in.Stacked
+		b.Scaler = scalerOf(in.Scaler)
+		b.Formatter = formatterOf(in)
+		counter := aggregation.NewSubKeyCounter()
+		sorter := sorting.NVNameSorter
+		if in.ByValue {
+			sorter = sorting.NVValueSorter
+		}
+		for _, fr := range in.SKFrames {
+			for _, sm := range fr {
+				counter.SampleValue(sm.Key, sm.Sub, sm.Inc)
+			}
+			// exactly cmd/bargraph.go's frame: no copies of the counter's slices
+			line := 0
+			b.SetKeys(counter.SubKeys()...)
+			for _, row := range counter.ItemsSorted(sorter) {
+				b.WriteBar(line, row.Name, row.Item.Items()...)
+				line++
+			}
+		}
+		return c14Out{Completed: true, Lines: termLines(vt, in.Col, true), BFrames: bargFramesOf(in)}
 	case "heat", "spark", "data":
 		vt := multiterm.NewVirtualTerm()
 		agg := aggregation.NewTable("\x00")
@@ -443,6 +487,28 @@ func runImpl(in c14In) c14Out {
 		return o
 	}
 	panic("unknown kind " + in.Kind)
+}
+
+// what each frame hands to the BarGraph (a function of the input alone)
+func bargFramesOf(in c14In) []bargFrame {
+	counter := aggregation.NewSubKeyCounter()
+	sorter := sorting.NVNameSorter
+	if in.ByValue {
+		sorter = sorting.NVValueSorter
+	}
+	var out []bargFrame
+	for _, fr := range in.SKFrames {
+		for _, sm := range fr {
+			counter.SampleValue(sm.Key, sm.Sub, sm.Inc)
+		}
+		f := bargFrame{Keys: append([]string{}, counter.SubKeys()...)}
+		for _, row := range counter.ItemsSorted(sorter) {
+			f.Rows = append(f.Rows, row.Name)
+			f.Vals = append(f.Vals, append([]int64{}, row.Item.Items()...))
+		}
+		out = append(out, f)
+	}
+	return out
 }
 
 // cmd/spark.go's per-frame trimming: keep the last n columns (name order)
@@ -653,6 +719,9 @@ func execute(in c14In) c14Out {
 	} else {
 		o = guarded(func() c14Out { return runImpl(in) }, 5*time.Second)
 	}
+	if !o.Completed && in.Kind == "bargf" {
+		o.BFrames = bargFramesOf(in)
+	}
 	if !o.Completed && (in.Kind == "heat" || in.Kind == "spark" || in.Kind == "data" || in.Kind == "heatseq") {
 		o.States = statesOf(in)
 	}
@@ -822,6 +891,30 @@ func inputTerm(in c14In, o c14Out) string {
 		return fmt.Sprintf("ISparkC %s %s", B(in.Uni), DYL(in.Us))
 	case "cli":
 		return "ICliSame " + RL_(o.Auto)
+	case "bargf":
+		var xs []int64
+		var rg [][2]int64
+		var ops []string
+		var mx int64
+		for _, f := range o.BFrames {
+			ops = append(ops, "bK "+RL_(f.Keys))
+			for i, name := range f.Rows {
+				ops = append(ops, fmt.Sprintf("bB %d %s %s", i, R(name), ZL(f.Vals[i])))
+				var sum int64
+				for _, v := range f.Vals[i] {
+					xs = append(xs, v)
+					sum += v
+					if !in.Stacked && v > mx {
+						mx = v
+					}
+				}
+				if in.Stacked && sum > mx {
+					mx = sum
+				}
+				rg = append(rg, [2]int64{0, mx})
+			}
+		}
+		return fmt.Sprintf("IBarF %s %d %s [%s]", cfgTerm(in, xs, rg), in.Size, B(in.Stacked), strings.Join(ops, ";"))
 	case "heatseq":
 		scaler, fk := "linear", 1
 		var tmpl []piece
@@ -965,7 +1058,47 @@ func obsTerm(in c14In, o c14Out) string {
 
 // All six C14 findings are repaired in /repo (fix: commits); their inputs stay in the fixed
 // cases, the corpus and the random generators and must pass, so no case carries a kf: tag.
-func kfTags(in c14In) []string { return nil }
+func kfTags(in c14In) []string {
+	if in.Kind == "bargf" && kfLiveSlices(in) {
+		return []string{"kf:C14-bargraph-live-slices"}
+	}
+	return nil
+}
+
+// C14-bargraph-live-slices: in a frame after the first a row raises the running maximum while a
+// row that has not been written yet in this frame already holds (in the counter's live slice the
+// BarGraph kept) a larger value: the redraw raises the maximum again behind WriteBar's back and
+// the rows drawn before it stay scaled against the smaller one
+func kfLiveSlices(in c14In) bool {
+	rowMax := func(vs []int64) int64 {
+		var m int64
+		for _, v := range vs {
+			if in.Stacked {
+				m += v
+			} else if v > m {
+				m = v
+			}
+		}
+		return m
+	}
+	var running int64
+	for f, fr := range bargFramesOf(in) {
+		for i, vs := range fr.Vals {
+			mi := rowMax(vs)
+			if f > 0 && mi > running {
+				for j := i + 1; j < len(fr.Vals); j++ {
+					if rowMax(fr.Vals[j]) > mi {
+						return true
+					}
+				}
+			}
+			if mi > running {
+				running = mi
+			}
+		}
+	}
+	return false
+}
 
 // ---------------------------------------------------------------- case construction
 
@@ -1088,6 +1221,40 @@ func boundaryTags(in c14In, o c14Out) []string {
 		}
 	case "cli":
 		t = append(t, "b:cli-fixed-range-equals-automatic")
+	case "bargf":
+		t = append(t, "b:live-aggregator-slices")
+		for i := 1; i < len(o.BFrames); i++ {
+			a, b := o.BFrames[i-1], o.BFrames[i]
+			if len(a.Keys) == len(b.Keys) {
+				var amx, bmx int64
+				for _, vs := range a.Vals {
+					for _, v := range vs {
+						if v > amx {
+							amx = v
+						}
+					}
+				}
+				changed := false
+				for j, vs := range b.Vals {
+					for k, v := range vs {
+						if v > bmx {
+							bmx = v
+						}
+						if j < len(a.Vals) && a.Rows[j] == b.Rows[j] && k < len(a.Vals[j]) && a.Vals[j][k] != v {
+							changed = true
+						}
+					}
+				}
+				if changed {
+					t = append(t, "b:row-in-place-changes-between-frames")
+					if amx == bmx {
+						t = append(t, "b:row-changes-without-raising-the-maximum")
+					}
+				}
+			} else {
+				t = append(t, "b:new-sub-key-between-frames")
+			}
+		}
 	case "heatseq":
 		updSeen, scalerAfterUpd, tables := false, false, 0
 		for _, st := range in.Steps {
@@ -1752,6 +1919,61 @@ func genValSmall(r *Rng) int64 {
 	return int64(Pick(r, []int{1, 1, 2, 3, 7, 10, 50, 100, 1000}))
 }
 
+// frames for `rare bargraph`: all sub-keys and one dominant row in the first frame, then more
+// samples for rows that stay in place (often without raising the global maximum)
+func genBargFrames(r *Rng) c14In {
+	in := c14In{Kind: "bargf", Col: r.Bool(), Uni: r.Bool(), Scaler: genScaler(r), Stacked: r.Bool(), Size: Pick(r, []int{10, 50, 50}), ByValue: r.Chance(1, 4)}
+	setFmt(r, &in)
+	nk, ns := r.Range(1, 4), r.Range(1, 3)
+	keys := make([]string, nk)
+	subs := make([]string, ns)
+	for i := range keys {
+		keys[i] = strings.Repeat(string(rune('a'+i)), 4)
+		if r.Chance(1, 5) {
+			keys[i] = genKey(r) + fmt.Sprint(i)
+		}
+	}
+	for i := range subs {
+		subs[i] = fmt.Sprintf("s%d", i)
+	}
+	var first []skSample
+	for i, k := range keys {
+		for _, sb := range subs {
+			inc := int64(r.Range(1, 9))
+			if i == 0 {
+				inc = int64(Pick(r, []int{50, 100, 1000})) // the row that holds the maximum
+			}
+			first = append(first, skSample{Key: k, Sub: sb, Inc: inc})
+		}
+	}
+	in.SKFrames = append(in.SKFrames, first)
+	nf := r.Range(1, 4)
+	for f := 0; f < nf; f++ {
+		var fr []skSample
+		for i := r.Range(1, 4); i > 0; i-- {
+			k := Pick(r, keys)
+			if len(keys) > 1 && r.Chance(3, 4) {
+				k = keys[1+r.Intn(len(keys)-1)] // not the dominant row
+			}
+			fr = append(fr, skSample{Key: k, Sub: Pick(r, subs), Inc: int64(r.Range(1, 12))})
+		}
+		if r.Chance(1, 6) {
+			fr = append(fr, skSample{Key: Pick(r, keys), Sub: fmt.Sprintf("s%d", ns+f), Inc: 1}) // a new sub-key
+		}
+		if r.Chance(1, 5) {
+			// several rows overtake the maximum in one frame
+			for _, k := range keys {
+				fr = append(fr, skSample{Key: k, Sub: Pick(r, subs), Inc: int64(r.Range(500, 3000))})
+			}
+		}
+		if r.Chance(1, 6) {
+			fr = append(fr, skSample{Key: fmt.Sprintf("zz%d", f), Sub: Pick(r, subs), Inc: int64(r.Range(1, 2000))}) // a new row
+		}
+		in.SKFrames = append(in.SKFrames, fr)
+	}
+	return in
+}
+
 func genCli(r *Rng) c14In {
 	in := c14In{Kind: "cli", Col: r.Bool(), Uni: r.Bool(), Scaler: Pick(r, []string{"linear", "log2", "log10", "log2", "log10"}), RLim: r.Range(1, 6), CLim: r.Range(1, 8)}
 	in.Batches = [][]sample{genSpread(r, r.Range(1, 5), r.Range(1, 4), true)}
@@ -1903,6 +2125,15 @@ func fixedCases() []c14In {
 			{{Col: "t1", Row: "a", Inc: 1}, {Col: "t1", Row: "b", Inc: 2}, {Col: "t1", Row: "c", Inc: 3}},
 			{{Col: "t2", Row: "d", Inc: 1}, {Col: "t2", Row: "e", Inc: 2}},
 			{{Col: "t3", Row: "f", Inc: 1}, {Col: "t3", Row: "g", Inc: 1}, {Col: "t3", Row: "h", Inc: 1}, {Col: "t3", Row: "i", Inc: 4}}}},
+		// `rare bargraph`, two frames: row bbbb gets more samples, the maximum (aaaa) does not move
+		{Kind: "bargf", Scaler: "linear", Size: 50, SKFrames: [][]skSample{
+			{{Key: "aaaa", Sub: "x", Inc: 100}, {Key: "aaaa", Sub: "y", Inc: 50}, {Key: "bbbb", Sub: "x", Inc: 4}, {Key: "bbbb", Sub: "y", Inc: 8}},
+			{{Key: "bbbb", Sub: "x", Inc: 16}, {Key: "bbbb", Sub: "y", Inc: 2}}}},
+		{Kind: "bargf", Scaler: "linear", Size: 50, Stacked: true, Col: true, Uni: true, SKFrames: [][]skSample{
+			{{Key: "aaaa", Sub: "x", Inc: 100}, {Key: "aaaa", Sub: "y", Inc: 50}, {Key: "bbbb", Sub: "x", Inc: 4}, {Key: "bbbb", Sub: "y", Inc: 8}},
+			{{Key: "bbbb", Sub: "x", Inc: 16}, {Key: "bbbb", Sub: "y", Inc: 2}}}},
+		// two rows overtake the maximum in the same frame (finding C14-bargraph-live-slices)
+		{Kind: "bargf", Scaler: "linear", Size: 50, SKFrames: [][]skSample{{{Key: "a", Sub: "x", Inc: 10}, {Key: "b", Sub: "x", Inc: 20}}, {{Key: "a", Sub: "x", Inc: 40}, {Key: "b", Sub: "x", Inc: 60}}}},
 		// cmd/heatmap.go's order: fixed bounds, UpdateMinMax, then the scale is assigned
 		{Kind: "heatseq", RLim: 4, CLim: 8, FixMin: true, FixMax: true, Steps: []hstep{{Op: "upd", Mn: 1, Mx: 1000}, {Op: "scaler", Scaler: "log10"}, {Op: "fmt", Fmt: 0},
 			{Op: "table", Batch: []sample{{Col: "a", Row: "r", Inc: 9}, {Col: "b", Row: "r", Inc: 10}, {Col: "c", Row: "r", Inc: 99}, {Col: "d", Row: "r", Inc: 100}, {Col: "e", Row: "r", Inc: 500}}}}},
@@ -1982,7 +2213,11 @@ func c14Gen(r *Rng, n int, tier string) []Case {
 		case k < 69:
 			in = genFrames(r, Pick(r, []string{"spark", "spark", "spark", "heat", "data"}))
 		case k < 77:
-			in = genBarG(r)
+			if r.Chance(1, 2) {
+				in = genBargFrames(r)
+			} else {
+				in = genBarG(r)
+			}
 		case k < 86:
 			in = genAgg(r, "heat")
 		case k < 92:
@@ -2027,7 +2262,7 @@ func main() {
 	Main(&Prop{
 		Name:   "C14",
 		Header: "From Coq Require Import List NArith ZArith QArith.\nFrom RareV Require Import Model.Render Corr.C14Case.\nImport ListNotations.\nOpen Scope Z_scope.\n",
-		Rule: "fixed boundary cases (the recorded defects; zero limits; all-equal data) followed by seeded random cases over 17 kinds: Scaler.Scale on ascending value lists for (min,max) incl. int64 extremes, degenerate and inverted ranges x {linear, log2, log10}; ScaleKeys; Bucket / LengthVal / BarWrite / HeatWrite / SparkWrite on unit values incl. 0, 1, 1-ulp, dyadic and non-dyadic fractions; BarWriteStacked; TableWriter row/footer histories; HistoWriter, BarGraph (stacked/grouped) call histories; Heatmap, Spark, DataTable.WriteTable after each of 1-3 batches of samples into a TableAggregator (0-8 rows x 0-8 columns, limits 0..n+2), x colour on/off x unicode on/off x formatter {Passthru, humanize, a generated --format expression over {0}/{val} {1}/{min} {2}/{max} and literal text}; histogram frames (UpdateTotal, then the lines top to bottom in key order: maximum last / in the middle / growing between frames) whose FINAL screen is compared; call sequences on ONE compiled --format expression (min = max, max = previous min, repeated frames); tables whose cells are all equal and non-zero; one Heatmap driven in cmd/heatmap.go's call order (FixedMin/FixedMax, UpdateMinMax, THEN Scaler and Formatter assigned, then 1-2 WriteTable) or reused across scalers (same data and range rendered again after Scaler changed), every displayed cell and legend block compared with the block of the scale in force at that render; ONE Spark / Heatmap / DataTable instance over 2-5 frames of a table that overflows the limits from the first frame and keeps growing (and, with cmd/spark.go's per-frame Trim to the last columns, shrinks), final screen compared line by line incl. the '(n more)' note; the built `rare heatmap --scale S --snapshot` run as a process with --min/--max equal to the data's own range against the run with the automatic range (same picture required). Keys: empty, long, multi-byte, with SGR sequences, with unterminated ESC. Values: zero, negative, all-equal, up to 2^50. " +
+		Rule: "fixed boundary cases (the recorded defects; zero limits; all-equal data) followed by seeded random cases over 17 kinds: Scaler.Scale on ascending value lists for (min,max) incl. int64 extremes, degenerate and inverted ranges x {linear, log2, log10}; ScaleKeys; Bucket / LengthVal / BarWrite / HeatWrite / SparkWrite on unit values incl. 0, 1, 1-ulp, dyadic and non-dyadic fractions; BarWriteStacked; TableWriter row/footer histories; HistoWriter, BarGraph (stacked/grouped) call histories; Heatmap, Spark, DataTable.WriteTable after each of 1-3 batches of samples into a TableAggregator (0-8 rows x 0-8 columns, limits 0..n+2), x colour on/off x unicode on/off x formatter {Passthru, humanize, a generated --format expression over {0}/{val} {1}/{min} {2}/{max} and literal text}; histogram frames (UpdateTotal, then the lines top to bottom in key order: maximum last / in the middle / growing between frames) whose FINAL screen is compared; call sequences on ONE compiled --format expression (min = max, max = previous min, repeated frames); tables whose cells are all equal and non-zero; one Heatmap driven in cmd/heatmap.go's call order (FixedMin/FixedMax, UpdateMinMax, THEN Scaler and Formatter assigned, then 1-2 WriteTable) or reused across scalers (same data and range rendered again after Scaler changed), every displayed cell and legend block compared with the block of the scale in force at that render; ONE Spark / Heatmap / DataTable instance over 2-5 frames of a table that overflows the limits from the first frame and keeps growing (and, with cmd/spark.go's per-frame Trim to the last columns, shrinks), final screen compared line by line incl. the '(n more)' note; a BarGraph fed frame by frame exactly as cmd/bargraph.go feeds it (a real aggregation.SubKeyCounter, SetKeys(SubKeys()) then WriteBar(line, name, Items()...) with the counter's LIVE slices, grouped and stacked, rows changing in place without raising the maximum); the built `rare heatmap --scale S --snapshot` run as a process with --min/--max equal to the data's own range against the run with the automatic range (same picture required). Keys: empty, long, multi-byte, with SGR sequences, with unterminated ESC. Values: zero, negative, all-equal, up to 2^50. " +
 			"distinct = distinct JSON input; non-trivial = at least one b:* boundary tag (see distribution).",
 		Gen: c14Gen,
 		Replay: func(d json.RawMessage) (Case, error) {
